@@ -302,9 +302,10 @@ def check(pid, tier, seed):
         take = behs[:(400 if quick else 6000)]
         with ProcessPoolExecutor(max_workers=14) as ex:
             races = list(ex.map(_race, [(evs, N, initlen, startlen) for evs in take], chunksize=8))
-            stack_jobs = [{'seed': seed * 100 + k, 'sizes': sizes} for k, sizes in
-                          enumerate([[1, 2, 3, 5, 4, 7, 2, 1], [1, 199, 2, 200, 3, 201, 1, 2], [333, 1, 1, 2, 260, 1, 3, 1]]
-                                    if quick else [[1, 2, 3, 5, 4, 7, 2, 1], [1, 199, 2, 200, 3, 201, 1, 2], [333, 1, 1, 2, 260, 1, 3, 1],
+            stack_jobs = [{'seed': seed * 100 + k, 'sizes': sizes, 'reorg_sizes': [240, 1, 2] if sizes[-2] >= 200 else [3, 1, 2]}
+                          for k, sizes in
+                          enumerate([[1, 2, 3, 5, 4, 7, 2, 1], [1, 199, 2, 200, 3, 201, 230, 2], [333, 1, 1, 2, 260, 1, 3, 1]]
+                                    if quick else [[1, 2, 3, 5, 4, 7, 2, 1], [1, 199, 2, 200, 3, 201, 230, 2], [333, 1, 1, 2, 260, 1, 3, 1], [1, 199, 2, 200, 3, 201, 1, 2],
                                                    [2] * 20, [1, 500, 1, 2, 3, 230, 231, 1, 1, 1, 1, 1, 1, 1, 1, 1, 1, 1, 1, 1, 1, 2]])]
             stacks = list(ex.map(_stack, stack_jobs))
         errors = [t for t in races + stacks if 'error' in t]
